@@ -996,6 +996,10 @@ def linear_strings(fi, a, b, kind, zs, q, xs):
     elif kind == 'const-vs-zero-student':
         e_str, E = lit(b if b != 0 else 3.5), [b if b != 0 else 3.5] * len(xs)
         s_str, S = ZERO_STRS[zs], [0.0] * len(xs)
+    elif kind == 'const-student':
+        # a nonzero constant submission against a varying expected answer: no (a, b) maps it onto the answer
+        c = b if abs(b) > 0.05 else 3.5
+        s_str, S = lit(c), [c] * len(xs)
     elif kind == 'zero-expected-vs-const':
         e_str, E = ZERO_STRS[zs], [0.0] * len(xs)
         s_str, S = lit(b if b != 0 else 3.5), [b if b != 0 else 3.5] * len(xs)
@@ -1008,7 +1012,8 @@ def linear_strings(fi, a, b, kind, zs, q, xs):
 def linear_specs(draw):
     n = draw(st.integers(3, 6))
     kind = draw(st.sampled_from(['related'] * 5 + ['unrelated', 'unrelated', 'zero-student', 'zero-expected',
-                                                    'both-zero', 'const-vs-zero-student', 'zero-expected-vs-const']))
+                                                    'both-zero', 'const-vs-zero-student', 'zero-expected-vs-const',
+                                                    'const-student', 'const-student']))
     credits = {m: draw(st.sampled_from(CREDITS)) for m in MODES}
     if draw(st.integers(0, 3)) > 0 and credits['equals'] is None:
         credits['equals'] = 1.0
@@ -1043,6 +1048,8 @@ def judge_linear(spec, rec):
         label = 'linear/zero-student'
     elif kind in ('zero-expected', 'zero-expected-vs-const'):
         label = 'linear/zero-expected'
+    elif kind == 'const-student':
+        label = 'linear/constant-student'
     else:
         label = 'linear/unrelated'
     return judge_linear_case(e_str, s_str, E, S, spec['credits'], spec['cred'], tol, xs, spec['seed'], rec, label)
